@@ -90,6 +90,87 @@ DESC = {
            "a raw header with valid code/size/version and any of flag bits 4..31 set"),
  "C20-b": ("message.rs VhostUserLog::is_valid(): wrap check on the last byte (offset + size - 1)",
            "mmap_offset + mmap_size == 2^64 exactly"),
+ # ---- second round (c, d): the sub-agents were told what the first-round changes were and asked for different ones
+ "C01-c": ("connection.rs recv_into_iovec_all(): `rfds = fds` unconditional (descriptors of the first piece overwritten by a later piece)",
+           "a descriptor-carrying reply written by the peer as header+descriptor and payload in two writes (as libvhost-user does)"),
+ "C01-d": ("frontend.rs set_log_base(): 16-byte/descriptor form chosen when LOG_SHMFD was *offered* instead of acknowledged",
+           "back end offers LOG_SHMFD, front end acknowledges a subset without it, then set_log_base(base, Some(region))"),
+ "C02-c": ("frontend.rs set_vring_enable(): gate via check_feature() (offered bit 30) instead of the acknowledged one",
+           "bit 30 offered but not acknowledged, then set_vring_enable: 20 bytes go on the wire, Ok(()) returned, back end refuses"),
+ "C02-d": ("message.rs VhostUserVringAddr::from_config_data(): log address taken only when the LOG flag is set",
+           "set_vring_addr with log_addr Some(non-zero) and the LOG flag clear: the handler sees log 0"),
+ "C03-c": ("backend_req_handler.rs get_config(): a shorter-than-requested handler result is sent as a short payload instead of the zero-size failure reply",
+           "handler returns fewer config bytes than asked for; the front end rejects the reply but cannot drain it: every later call is out of step"),
+ "C03-d": ("backend_req_handler.rs SET_LOG_BASE arm: the reply is sent even when the handler failed",
+           "LOG_SHMFD negotiated, set_log_base with a region, handler failing: the call returns Ok(())"),
+ "C04-c": ("backend_req_handler.rs send_ack_message(): acknowledgement value taken from the handler error's raw_os_error()",
+           "REPLY_ACK, NEED_REPLY, handler failing with ReqHandlerError around an io::Error without errno: acknowledged with 0"),
+ "C04-d": ("backend_req_handler.rs new_reply_header(): size limit `<` instead of `<=`",
+           "GET_CONFIG for exactly 4084 bytes (reply of exactly 4096 payload bytes): nothing is written"),
+ "C05-c": ("mod.rs take_single_file(): returns the first of several files",
+           "an otherwise valid single-descriptor request (SET_VRING_KICK, SET_LOG_BASE...) carrying 2..=32 descriptors reaches the handler"),
+ "C05-d": ("handler.rs (daemon): vring lookup folded into a helper with `index > num_queues`",
+           "a well-typed per-ring request whose index equals num_queues exactly: slice index panic in the request thread"),
+ "C06-c": ("frontend.rs set_device_state_fd(): reply decoded as bit fields, exact (value, descriptors) pairing lost",
+           "reply 0x100 ('no descriptor') carrying descriptors -> Ok(None); undefined payload bits plus a descriptor -> Ok(Some(file))"),
+ "C06-d": ("message.rs VhostUserMsgHeader::is_valid(): reserved-bit check via from_bits() (dead because RESERVED_BITS is a named flag)",
+           "a reply / back-end request correct in every other field with a reserved header flag bit (4..31) set"),
+ "C07-c": ("frontend.rs set_protocol_features(): acknowledged set recorded before the PROTOCOL_FEATURES gate is checked",
+           "a refused set_protocol_features(S) (before get_features, or bit 30 not offered) followed by an operation gated on a bit of S"),
+ "C07-d": ("backend_req_handler.rs GET_PROTOCOL_FEATURES: REPLY_ACK offered only once a GET_FEATURES reply with bit 30 was seen",
+           "GET_PROTOCOL_FEATURES before the first GET_FEATURES, or a device without bit 30"),
+ "C08-c": ("connection.rs recv_into_iovec_all(): iovec advanced in place with an absolute offset",
+           "a message arriving in >=3 segments with two split points inside the same receive buffer (overflow panic / EINVAL)"),
+ "C08-d": ("frontend.rs recv_reply_with_payload(): short-read check after recv_data dropped",
+           "GET_CONFIG reply whose payload is cut by end-of-stream: Ok with zero-padded bytes"),
+ "C09-c": ("connection.rs recv_into_iovec(): receive array enlarged to 253, only the first 32 wrapped into Files",
+           "one message with 33..=253 descriptors: n-32 of them stay open forever"),
+ "C09-d": ("connection.rs recv_data(): descriptors attached to a body are received, refused (IncorrectFds) and not closed",
+           "header and body written separately with 1..=32 descriptors on the body part"),
+ "C10-c": ("gpu_backend_req.rs: cursor messages go through a second socket handle with its own lock",
+           "one clone inside a reply-bearing GPU operation, another clone sending cursor_pos / cursor_pos_hide / cursor_update in that window"),
+ "C10-d": ("backend_req.rs: reply_ack flag moved out of the mutex (atomic), read when building the header and again before waiting",
+           "another clone flips REPLY_ACK while a back-end request is between send and wait_for_ack: hang, or an unread acknowledgement"),
+ "C11-c": ("handler.rs get_vring_base(): descriptors dropped before update_vring_registration() (which then finds no fd to unregister)",
+           "ring started+enabled, GET_VRING_BASE, then a guest kick on the old kick descriptor the peer still holds"),
+ "C11-d": ("handler.rs reset_device(): rings that are not started are skipped",
+           "ring enabled but not started at RESET_DEVICE time, started afterwards without an enabling message, then kicked"),
+ "C12-c": ("handler.rs update_vring_registration(): 'enabled but stopped' neither registers nor unregisters",
+           "GET_VRING_BASE on a started, enabled ring, then a kick on the old eventfd: endless handler entries for a stopped ring"),
+ "C12-d": ("handler.rs set_features() without PROTOCOL_FEATURES: set_enabled(true) without update_vring_registration()",
+           "ring started, RESET_DEVICE, SET_FEATURES without bit 30, kick (or SET_VRING_KICK before the first such SET_FEATURES)"),
+ "C13-c": ("handler.rs set_vring_addr(): the descriptor table's region is used to translate all three addresses",
+           ">=2 regions with different user-guest deltas and a ring whose parts are not all in the descriptor table's region"),
+ "C13-d": ("handler.rs set_mem_table(): region descriptors sorted by guest address, files left in message order",
+           "a table with >=2 regions not in ascending guest order backed by different files: accepted, wrong file behind a region"),
+ "C14-c": ("handler.rs set_mem_table(): translations appended to those of earlier tables (first match wins)",
+           "two accepted tables mapping the same front-end range to different guest addresses, then SET_VRING_ADDR in that range"),
+ "C14-d": ("handler.rs set_protocol_features(): acknowledged set masked with the device's own protocol_features()",
+           "device not listing REPLY_ACK itself, REPLY_ACK negotiated, SET_BACKEND_REQ_FD: the new channel does not inherit reply-ack"),
+ "C15-c": ("bitmap.rs AtomicBitmapMmap::new(): log-size check rounds the needed byte count down",
+           "region ending in the middle of a log byte and a log exactly one byte too short: accepted, later write panics"),
+ "C15-d": ("handler.rs set_log_base(): the remembered log is replaced before the fallible bitmap creation",
+           "accepted log A, rejected (too small) log B, reconnect, SET_MEM_TABLE: new memory is logged into B"),
+ "C16-c": ("lib.rs wait(): shutdown_requested sampled before joining the daemon thread",
+           "owner already blocked in wait() when another thread requests shutdown: wait() returns Err(Disconnected)"),
+ "C16-d": ("backend_req_handler.rs handle_request(): short body reported as SocketBroken(UnexpectedEof), which wait() forgives",
+           "peer closing between the end of a header and the end of its body, no shutdown requested: wait() returns Ok(())"),
+ "C17-c": ("handler.rs update_vring_registration(): `break` after the first matching worker lost",
+           "overlapping queues_per_thread masks and a kick on the shared queue: a later owner handles it as well"),
+ "C17-d": ("handler.rs new(): no worker spawned for a thread without queues, handlers indexed by mask position",
+           "a queue-less mask listed before the owner of the kicked queue: wrong worker / index out of bounds"),
+ "C18-c": ("message.rs VhostUserMMap::is_valid(): `<` against u64::MAX - len instead of checked_add",
+           "shmem_map/unmap with offset + len == u64::MAX exactly: refused before the handler, no acknowledgement"),
+ "C18-d": ("frontend_req_handler.rs send_ack_message(): acknowledges every request once REPLY_ACK is on, NEED_REPLY or not",
+           "server with REPLY_ACK on, proxy with it off (then turned on): stale acknowledgements shift every later one"),
+ "C19-c": ("vhost_kern/mod.rs IOTLB parsers: message type validated against ACCESS_FAIL as upper bound",
+           "a BATCH_BEGIN / BATCH_END message written by send_iotlb_msg() does not parse back"),
+ "C19-d": ("vhost_kern/mod.rs to_vhost_vring_addr(): the descriptor table's region translates all three ring addresses",
+           ">=2 guest memory regions and a ring whose avail or used part lies in another region: refused, no ioctl"),
+ "C20-c": ("message.rs VhostUserInflight::is_valid(): `num_queues != 0 || queue_size != 0`",
+           "exactly one of num_queues / queue_size equal to zero"),
+ "C20-d": ("message.rs FrontendReq / BackendReq: MAX_CMD sentinel variants (45 / 11) become known request codes",
+           "a header with request code 45 (front-end) or 11 (back-end)"),
 }
 
 
@@ -124,7 +205,7 @@ def main():
             meta.update({
                 "id": key,
                 "property_broken": pid,
-                "origin": "written by an independent sub-agent that was given only the text of the property and a scratch worktree of /repo (nothing from /verif)",
+                "origin": "written by an independent sub-agent that was given only the text of the property and a scratch worktree of /repo (nothing from /verif)" + ("" if v in "ab" else "; second round: additionally told what the first-round changes a and b were, and asked for different ones"),
                 "change": what,
                 "needs_to_manifest": needs,
                 "confirmed_by_me": {
